@@ -144,6 +144,22 @@ def curated_meshes():
     r2lo, r2hi = refine_region((2, 4), (4, 6))           # finer x 4..9, y 8..13
     l2 = tile(r2lo, r2hi, [[8], []])
     M.append(Mesh('2d-3lev', 2, (4, 4), [l0, l1, l2]))
+    # ---- refined regions that are not one rectangle (separate patches, an L): what an AMR regrid really produces
+    # 3D, level 1 = two patches separated by an unrefined gap along x and shifted along y
+    l0 = tile((0, 0, 0), (5, 3, 1), [[2], [], []])
+    pa = tile(*refine_region((0, 0, 0), (1, 1, 0)), [[], [], []])            # fine x 0..3, y 0..3, z 0..1
+    pb = tile(*refine_region((4, 2, 0), (5, 3, 1)), [[], [6], []])           # fine x 8..11, y 4..7, z 0..3 (two boxes)
+    M.append(Mesh('3d-2lev-2patch', 3, (6, 4, 2), [l0, pa + pb]))
+    # 3D, three levels: level 2 lives in the second patch only
+    l2 = tile(*refine_region((8, 4, 0), (9, 5, 1)), [[], [], []])            # finer x 16..19, y 8..11, z 0..3
+    M.append(Mesh('3d-3lev-2patch', 3, (6, 4, 2), [l0, pa + pb, l2]))
+    # 2D, level 1 is an L made of three boxes; level 2 = two patches in two different level-1 boxes
+    l0 = tile((0, 0), (5, 5), [[], [3]])
+    la = tile(*refine_region((0, 0), (1, 3)), [[], [4]])                     # fine x 0..3, y 0..7 (two boxes)
+    lb = tile(*refine_region((2, 0), (4, 1)), [[], []])                      # fine x 4..9, y 0..3
+    M.append(Mesh('2d-2lev-L', 2, (6, 6), [l0, la + lb]))
+    f2 = tile(*refine_region((0, 5), (1, 6)), [[], []]) + tile(*refine_region((6, 0), (8, 1)), [[14], []])
+    M.append(Mesh('2d-3lev-2patch', 2, (6, 6), [l0, la + lb, f2]))
     # the order in which a level header lists its boxes is arbitrary: reversed / rotated listings
     by = {m.name: m for m in M}
     M.append(reorder(by['3d-2lev-mixed'], 'reversed'))
@@ -166,8 +182,17 @@ def reorder(mesh, how, rnd=None):
     return Mesh(mesh.name + '/' + how, mesh.ndims, mesh.ncell0, boxes)
 
 
-def random_mesh(rnd, ndims, max_levels=2, max_boxes=4, max_extent=6):
-    """A random properly nested mesh on blocking factor 2."""
+def random_mesh(rnd, ndims, max_levels=2, max_boxes=4, max_extent=6, patches=None):
+    """A random properly nested mesh on blocking factor 2.  With patches > 1 a refined level may consist of several
+    disjoint rectangles (each inside one box-region of the level below)."""
+    if patches is None:
+        # one random mesh in three has multi-patch refined levels
+        patches = 2 if (max_levels >= 2 and rnd.randrange(3) == 0) else 1
+    if patches > 1:
+        for _ in range(50):
+            m = _random_patch_mesh(rnd, ndims, max_levels, max_boxes, max_extent, patches)
+            if m is not None and well_formed(m):
+                return m
     while True:
         ncell0 = tuple(rnd.choice([2, 3, 4, 5, 6]) for _ in range(ndims))
         if ndims == 3 and ncell0[0] * ncell0[1] * ncell0[2] > 64:
@@ -213,6 +238,44 @@ def random_mesh(rnd, ndims, max_levels=2, max_boxes=4, max_extent=6):
     # level headers list their boxes in arbitrary order
     boxes = [rnd.sample(lv, len(lv)) for lv in boxes]
     return Mesh('rand', ndims, ncell0, boxes)
+
+
+def _random_patch_mesh(rnd, ndims, max_levels, max_boxes, max_extent, patches):
+    base = random_mesh(rnd, ndims, max_levels=1, max_boxes=max_boxes, max_extent=max_extent, patches=1)
+    boxes = [list(base.boxes[0])]
+    nlev = rnd.randint(2, max(2, max_levels))
+    # regions of the level below, in that level's cells, inside which the next level may be placed
+    regions = [(tuple(0 for _ in range(ndims)), tuple(n - 1 for n in base.ncell0))]
+    for l in range(1, nlev):
+        lv, new_regions, used = [], [], set()
+        for _ in range(rnd.randint(1, patches)):
+            lo, hi = rnd.choice(regions)
+            sub_lo, sub_hi = [], []
+            for d in range(ndims):
+                a = rnd.randint(lo[d], hi[d])
+                b = rnd.randint(a, min(hi[d], a + 1))
+                sub_lo.append(a)
+                sub_hi.append(b)
+            cells = set(itertools.product(*[range(a, b + 1) for a, b in zip(sub_lo, sub_hi)]))
+            if cells & used:
+                continue
+            used |= cells
+            flo, fhi = refine_region(sub_lo, sub_hi)
+            cuts = []
+            for d in range(ndims):
+                cand = [c for c in range(flo[d] + 2, fhi[d] + 1, 2)]
+                cuts.append(sorted(rnd.sample(cand, min(rnd.choice([0, 0, 1]), len(cand)))))
+            t = tile(flo, fhi, cuts)
+            if any(h - lo_ + 1 > max_extent for blo, bhi in t for lo_, h in zip(blo, bhi)):
+                t = tile(flo, fhi, [[c for c in range(flo[d] + 2, fhi[d] + 1, 2)] if fhi[d] - flo[d] + 1 > max_extent else [] for d in range(ndims)])
+            lv += t
+            new_regions.append((flo, fhi))
+        if not lv or len(lv) > max_boxes + 2:
+            return None
+        rnd.shuffle(lv)
+        boxes.append(lv)
+        regions = new_regions
+    return Mesh('randp', ndims, base.ncell0, boxes)
 
 
 def well_formed(mesh):
